@@ -58,6 +58,10 @@ func muCall(in ssa.Instruction) string {
 	if !ok {
 		return ""
 	}
+	switch in.(type) {
+	case *ssa.Defer, *ssa.Go:
+		return "" // a deferred Unlock releases at return, not here
+	}
 	f := core.StaticCallee(ci)
 	if f == nil || f.Pkg == nil || f.Pkg.Pkg.Path() != "sync" {
 		return ""
